@@ -23,6 +23,10 @@ import ODataVerif.Spec.SqlLex
 import ODataVerif.Spec.SqlParse
 import ODataVerif.Spec.SqlMirror
 import ODataVerif.Model.SqlPieces
+import ODataVerif.Spec.ODataSem
+import ODataVerif.Spec.SqliteSem
+import ODataVerif.Spec.ODataElab
+import ODataVerif.Model.Orm
 open OQ OQ.Wire
 
 def encTok : Tok → String
@@ -146,9 +150,49 @@ def encOptSql : Option Spec.SqlTree → String
   | some t => "ok " ++ encSql t
   | none => "none"
 
+/-- rows on the wire: rows separated by `|`, cells by `;`, a cell is `name:n` (NULL) | `name:i<int>` | `name:s<hex>` -/
+def decCell (c : String) : Option (Str × Spec.Val) :=
+  match c.splitOn ":" with
+  | [n, v] =>
+      if v == "n" then some (n.toList, .null)
+      else if v.startsWith "i" then (v.drop 1).toString.toInt?.map (fun z => (n.toList, Spec.Val.int z))
+      else if v.startsWith "s" then (stringOfHex (v.drop 1).toString).map (fun s => (n.toList, Spec.Val.str s.toList))
+      else none
+  | _ => none
+
+def decRow (r : String) : Option Spec.Row :=
+  if r.isEmpty then some [] else (r.splitOn ";").mapM decCell
+
+def decRows (rs : String) : Option (List Spec.Row) :=
+  if rs.isEmpty then some [] else (rs.splitOn "|").mapM decRow
+
+def encV3 : Spec.V3 → String
+  | .tt => "T" | .ff => "F" | .unk => "U"
+
 /-- alias argument: "-" = no alias, otherwise hex of the alias -/
 def decAlias (a : String) : Option (Option Str) :=
   if a == "-" then some none else (decStr a).map some
+
+def encOParams (t : OTree) : String :=
+  " ".intercalate (t.params.map (fun p => p.1.className ++ ":" ++ encStr p.2))
+
+mutual
+partial def encOTree : OTree → String
+  | .col p => "(col " ++ " ".intercalate (p.map encStr) ++ ")"
+  | .param k v => s!"(param {k.className} {encStr v})"
+  | .pint z => s!"(pint {z})"
+  | .const c => s!"(const {c})"
+  | .node op args => s!"({op} {encOTrees args})"
+partial def encOTrees : OTrees → String
+  | .nil => ""
+  | .cons h .nil => encOTree h
+  | .cons h t => encOTree h ++ " " ++ encOTrees t
+end
+
+def encOrmOutcome (o : Outcome OTree) : String :=
+  match o with
+  | .foreign "unmodelled" => "unmodelled"
+  | o => encOutcome (fun t => "P " ++ encOParams t ++ " T " ++ encOTree t.skeleton) o
 
 def handle (args : List String) : String :=
   match args with
@@ -228,6 +272,25 @@ def handle (args : List String) : String :=
                  s!"ok litok={lo} safe={sf} pieces={allOk} lex={lexOk} mirror={mir.isSome} parse={parseOk}"
              | _ => s!"exc litok={lo} safe={sf}")
        | _, _ => "bad-arg")
+  | ["odataeval", w, rs] =>
+      -- ODataSem on every row: T / F / U per row, `x` when the row is outside semOk; "noelab" when the filter is outside the typed fragment
+      withExpr w (fun e =>
+        match Spec.elabB e, decRows rs with
+        | some b, some rows => " ".intercalate (rows.map (fun ρ => if Spec.semOkB ρ b then encV3 (Spec.evalB ρ b) else "x" ++ encV3 (Spec.evalB ρ b)))
+        | none, _ => "noelab"
+        | _, none => "bad-rows")
+  | ["sqliteeval", h, rs] =>
+      -- SqliteSem on the tree the Lean SQL reader gets from a WHERE text: 1 / 0 per row, `?` when outside the model
+      (match decStr h, decRows rs with
+       | some txt, some rows =>
+           (match Spec.sqlRead txt with
+            | some t => " ".intercalate (rows.map (fun ρ => match Spec.sqliteSelects ρ t with
+                                                           | some true => "1" | some false => "0" | none => "?"))
+            | none => "unreadable")
+       | _, _ => "bad-arg")
+  | ["djbuild", w] => withExpr w (fun e => encOrmOutcome (djBuild e))
+  | ["sabuild", mode, fs, w] =>
+      withExpr w (fun e => encOrmOutcome (saBuild ((fs.splitOn ",").map String.toList) (mode == "core") e))
   | ["sqllex", h] =>
       (match decStr h with
        | some s => encSqlToks (Spec.sqlLex s)
